@@ -201,7 +201,7 @@ pub fn run(tier: Tier) -> i32 {
                         Err((s2, d2)) => (s2, d2, pair),
                         Ok(()) => (stage, d, doc),
                     };
-                    local.fail(&format!("{stage}:two-values-in-one-document:{}", crate::model::shrink::shape_sig(&shown)), json!({"value": to_json(&shown)}), d);
+                    local.fail(&format!("{stage}:two-values-in-one-document:{}", crate::model::shrink::shape_sig(&shown)), json!({"value": to_json(&shown), "pair_document": true}), d);
                 }
             }
             local.count("pair-documents");
@@ -296,6 +296,10 @@ pub fn run(tier: Tier) -> i32 {
 pub fn replay(case: &J) -> Verdict {
     if case["history_repeats"].is_string() {
         return super::common::replay_history_repeats(case, &|j| crate::model::v::from_json(j), &zinc_observation, "zinc-codec");
+    }
+    if case["pair_document"] == true {
+        let v = crate::model::v::from_json(&case["value"]);
+        return zinc_roundtrip(&v).map_err(|(stage, d)| (format!("{stage}:two-values-in-one-document:{}", crate::model::shrink::shape_sig(&v)), d));
     }
     if case["history_pair"].is_string() {
         let (w, v) = (crate::model::v::from_json(&case["before"]), crate::model::v::from_json(&case["then"]));
